@@ -145,6 +145,8 @@ def alloc_observe(r):
     b = _ALLOC_BINS['release' if r['mode'] == 'alloc_stress' else 'debug']
     if r['mode'] == 'alloc_step':
         cmd = [b, 'step', str(r['limit']), str(r['used']), r['op'], str(r['size']), str(r['old'])]
+    elif r['mode'] == 'alloc_helper':
+        cmd = [b, 'helper', str(r['limit']), str(r['used']), str(r['peak']), r['which'], str(r['new_limit'])]
     else:
         cmd = [b, 'stress', r['op1'], r['op2'], str(r.get('iters', 300000))]
     try:
@@ -282,7 +284,11 @@ def check_mirsym(pid, tier, seed):
             rep, what = h.judge(inputs, label, o_rel)
             case['profile'] = 'release-only'
         if rep == 'kernel-only':
+            # reproduced natively by calling the public function the harness encodes, with no query-level form of the
+            # same arguments: still a reproduced violation of the code the property is anchored in
+            case['level'] = 'unit (public function called directly)'
             kernel_only.append((hn, label, case, what))
+            confirmed.append((hn, label, case, 'unit level: ' + what))
         elif rep:
             confirmed.append((hn, label, case, what))
         else:
@@ -331,7 +337,7 @@ def check_mirsym(pid, tier, seed):
     for ln in vlines:
         print(ln)
     for hn, label, case, what in kernel_only:
-        print('NOTE kernel-level only (not liftable to a query, not an alarm): %s [%s] %s' % (hn, label, what[:200]))
+        print('NOTE reproduced at the unit level only (no query form of these arguments): %s [%s] %s' % (hn, label, what[:200]))
     for i in inconclusive:
         print('INCONCLUSIVE ' + i)
     wall = time.time() - t0
